@@ -183,6 +183,8 @@ def run(M, rec, tier, seed, k, n):
             compiled_conservation(M, rec, rng, 500)
             W.closed_loop(M, rec, rng, 6, 300, on_step=on_step)
             W.small_valid_steps(M, rec, rng, 3, k, n, before_case=before, seed=seed)
+            # every valid 4-node topology (49 551 digraphs) with the reduced role set (253 151 networks)
+            W.small_valid_steps(M, rec, rng, 4, k, n, before_case=before, seed=seed + 1, kinds_full=False, only_n=4)
     finally:
         mon.uninstall()
     if k == 0:
